@@ -835,7 +835,9 @@ def gen_case(rng, pid, size, kind):
                 if rng.random() < 0.8:
                     closed = True        # (a refused close leaves it open: the next ops find out)
             elif r < 0.96:
-                ops.append('ext %d %d' % (i, 10 + rng.randrange(10)))
+                # mostly the root / low objects: they are the ones that are committed
+                e = rng.choice([0, 0, 0, 1, 1, 2, i])
+                ops.append('ext %d %d' % (min(e, n - 1), 10 + rng.randrange(10)))
             else:
                 ops.append('peek %d' % i)
         else:
